@@ -406,7 +406,7 @@ impl Prop for RawStream {
         } else {
             Meta {
                 level: "exploration",
-                rule: "a consumer of the raw reader API streams through a synthetic source of N >= 8 x bound bytes: it keeps a look-ahead of L bytes buffered (request(L) before each record / request_byte_at_offset(L-1) / only request_more() + buf(), or a mix), consumes records of at most m bytes, optionally sets marks; chunk size in {1..65536}, read-size policy (full / one byte / random), optional Interrupted, clean end or terminal error; oracle: peak live heap - baseline <= 16*chunk + 32*max(L,m) + 64 KiB at every record, every record equals the stream bytes at its position, position() equals the bytes consumed; non-trivial iff >= 8 x bound bytes were streamed; distinct = distinct case parameters",
+                rule: "a consumer of the raw reader API streams through a synthetic source of N >= 8 x bound bytes: it keeps a look-ahead of L bytes buffered (request(L) before each record / request_byte_at_offset(L-1) / only request_more() + buf(), or a mix), consumes records of at most m bytes, optionally sets marks; chunk size in {1..65536} (rarely a window of 1..4 MiB with chunks of 64 KiB..1 MiB), read-size policy (full / one byte / random), optional Interrupted, clean end or terminal error; oracle: peak live heap - baseline <= 16*chunk + 32*max(L,m) + 64 KiB at every record, every record equals the stream bytes at its position, position() equals the bytes consumed; non-trivial iff >= 8 x bound bytes were streamed; distinct = distinct case parameters",
                 assumptions: vec![
                     "the constants of the bound are those of C10 with the look-ahead in the role of the largest item",
                     "allocations are attributed to the worker thread (thread-local counters)",
@@ -485,6 +485,30 @@ impl Prop for RawStream {
                 pattern: rng.below(4) as u8,
                 marks: rng.chance(1, 2),
                 fail_at_end: rng.chance(1, 3),
+            };
+        }
+        if rng.chance(1, 1000) {
+            // a window of megabytes kept in front of the cursor (a frame decoder that wants the
+            // largest possible frame buffered before it looks at the header)
+            let chunk = *rng.pick(&[65_536usize, 1 << 20, 262_144]);
+            let lookahead = *rng.pick(&[(1usize << 20) + 1, 2 << 20, 4 << 20]);
+            let b = bound(chunk, lookahead) as u64;
+            return RawCase {
+                marathon: false,
+                chunk: Some(chunk),
+                sizes: if rng.chance(1, 2) {
+                    ReadSizes::Full
+                } else {
+                    ReadSizes::Random(chunk)
+                },
+                interrupts: rng.chance(1, 4),
+                seed: rng.next_u64(),
+                total: b * 8 + rng.below(5000) as u64,
+                max_rec: *rng.pick(&[4096usize, 65_536, 20_000]),
+                lookahead,
+                pattern: rng.below(4) as u8,
+                marks: rng.chance(1, 3),
+                fail_at_end: rng.chance(1, 4),
             };
         }
         let chunk = match rng.below(8) {
